@@ -9,7 +9,10 @@
   hypotheses spelled out in the statements —
      (nanO (sqrtO x) || infO (sqrtO x)) = nonFinite x        (the Go finiteness test sees what the model sees)
      le (sqrtO x) e = sqrtLe x e                              (comparing the root = the model's comparison)
-  which are facts about IEEE sqrt, checked at the bit tier by the correspondence runs.  Property theorems only.
+  each asked AT THE ONE VALUE MET, the model's squared delta `x` (a compensated sum of squares; quantified over
+  every scalar the first one is false of the real float functions — `math.Sqrt(-1)` is NaN although `-1` is finite —
+  see `EtVerif.Tr.OracleOK` in Proofs/TrChecker.lean).  They are facts about IEEE sqrt, checked at the bit tier by
+  the correspondence runs.  Property theorems only.
 -/
 import EtVerif.Proofs.TrChecker
 
@@ -37,12 +40,14 @@ theorem newChecker_related (sqrtO : α → α) (t0 : Vec α) (e : α) :
       Gen.NewConvergenceChecker (toGV t0) e = .ok (stm, m) ∧ CCRel sqrtO g m t0.dim :=
   NewConvergenceChecker_src_rel sqrtO t0 e
 
-/-- One `Update` of the source checker does what the extern does: same error decision; on success the relation is
+/-- One `Update` of the source checker does what the extern does (`hnf`: the oracle fact at the model's new squared
+    delta, the one value met): same error decision; on success the relation is
     re-established, the iteration counter advances and the stored delta is the root of the model's squared delta;
     on a non-finite delta both leave their checker unchanged. -/
 theorem update_simulates (capO : Nat → Int) (fuel : Nat) (sqrtO : α → α) (nanO infO : α → Bool)
-    (hnf : ∀ x : α, (nanO (sqrtO x) || infO (sqrtO x)) = nonFinite x)
     (g : GConvergenceCheckerSrc α) (m : GConvergenceChecker α) (n : Nat) (t : Vec α)
+    (hnf : (nanO (sqrtO (m.c.update t.entries).dsq) || infO (sqrtO (m.c.update t.entries).dsq)) =
+      nonFinite (m.c.update t.entries).dsq)
     (hrel : CCRel sqrtO g m n) (hdim : t.dim = n) (hf : t.entries.length + m.c.t.length ≤ fuel) :
     ∃ st g' stm m' err,
       Gen.ConvergenceChecker_Update_src capO fuel sqrtO nanO infO g (toGV t) = .ok (st, err) ∧ st.c = g' ∧
@@ -50,12 +55,12 @@ theorem update_simulates (capO : Nat → Int) (fuel : Nat) (sqrtO : α → α) (
       CCRel sqrtO g' m' n ∧
       (err = none → g'.d = sqrtO m'.c.dsq ∧ g'.iter = g.iter + 1) ∧
       (err ≠ none → g' = g ∧ m' = m) :=
-  ConvergenceChecker_Update_src_simulates capO fuel sqrtO nanO infO hnf g m n t hrel hdim hf
+  ConvergenceChecker_Update_src_simulates capO fuel sqrtO nanO infO g m n t hnf hrel hdim hf
 
-/-- `Converged`: the two verdicts coincide. -/
+/-- `Converged`: the two verdicts coincide (`hsq`: the oracle fact at the squared delta and epsilon held). -/
 theorem converged_agrees (sqrtO : α → α) (g : GConvergenceCheckerSrc α) (m : GConvergenceChecker α)
     (he : g.e = m.e) (hd : g.d = sqrtO m.c.dsq)
-    (hsq : ∀ x : α, Scalar.le (sqrtO x) m.e = Scalar.sqrtLe x m.e) :
+    (hsq : Scalar.le (sqrtO m.c.dsq) m.e = Scalar.sqrtLe m.c.dsq m.e) :
     (Gen.ConvergenceChecker_Converged_src g).map (fun r => r.2) =
       (Gen.ConvergenceChecker_Converged m).map (fun r => r.2) :=
   ConvergenceChecker_Converged_src_agrees sqrtO g m he hd hsq
